@@ -460,6 +460,34 @@ func (c *Ctx) c13Commit(m *pop3Model) {
 		})
 	}
 	r.Floor("C13/COMMIT", "RemoveMessage call sites in pop3", nRm, 1)
+	// the delete loop must visit every snapshot element: no return / break out of its body
+	for _, lp := range m.snapshotLoops() {
+		if lp.fn != m.deleteProc {
+			continue
+		}
+		bodyEntry := lp.header.Succs[0]
+		early := ""
+		for _, b := range lp.fn.Blocks {
+			if !bodyEntry.Dominates(b) {
+				continue
+			}
+			for _, in := range b.Instrs {
+				if _, isRet := in.(*ssa.Return); isRet {
+					early = "return at " + p.InstrPos(in)
+				}
+			}
+			for _, su := range b.Succs {
+				if su != lp.header && !bodyEntry.Dominates(su) {
+					early = "jump out of the loop from the block at " + p.InstrPos(b.Instrs[0])
+				}
+			}
+		}
+		if early != "" {
+			r.Bad("C13/COMMIT", "delete-loop-complete", p.InstrPos(eng.IfOf(lp.header)), "the delete processor can leave its loop early (%s): when one removal fails (e.g. the message was already removed by another client or by retention) the remaining marked messages are never removed", early)
+		} else {
+			r.Ok("C13/COMMIT", "delete-loop-complete", p.InstrPos(eng.IfOf(lp.header)), "the delete loop has no early exit: every marked message is attempted")
+		}
+	}
 	// delete processor calls
 	nCalls := 0
 	for _, fn := range m.fns {
